@@ -991,7 +991,7 @@ fn unit_deep(acc: &mut Acc, family: usize, n: usize) {
 // -----------------------------------------------------------------------------------------------
 // Child entry: `cvh child c20 <shard> <nshards> <tier> <seed> [from_part from_idx trace]`
 
-const PARTS: [&str; 5] = ["sat", "rand", "text", "scale", "deep"];
+const PARTS: [&str; 6] = ["sat", "rand", "text", "scale", "deep", "iter"];
 
 struct Plan {
     sat_grammars: Vec<G>,
@@ -1017,7 +1017,8 @@ fn n_units(pl: &Plan, part: usize) -> usize {
         1 => pl.n_rand,
         2 => pl.n_text,
         3 => scale_families().len(),
-        _ => N_DEEP,
+        4 => N_DEEP,
+        _ => super::c20iter::N_UNITS,
     }
 }
 
@@ -1038,6 +1039,7 @@ pub fn child(args: &[String]) -> i32 {
     start_hang_monitor();
     let pl = plan(thorough);
     let rb = rand_basis();
+    let iter_words = super::c20iter::inputs();
     let mut acc = Acc::default();
     // run on a thread with a large stack (the main thread's is 8 MiB)
     let h = std::thread::Builder::new()
@@ -1054,7 +1056,8 @@ pub fn child(args: &[String]) -> i32 {
                             1 => unit_rand(&mut acc, &rb, seed, i),
                             2 => unit_text(&mut acc, seed, i),
                             3 => unit_scale(&mut acc, i, pl.scale_n),
-                            _ => unit_deep(&mut acc, i, pl.deep_n),
+                            4 => unit_deep(&mut acc, i, pl.deep_n),
+                            _ => super::c20iter::unit_iter(&mut acc, &iter_words, i),
                         }
                         if trace && acc.viols.len() > 0 {
                             break;
@@ -1168,13 +1171,14 @@ pub fn run(cx: &RunCtx) -> i32 {
         acc,
         Finish {
             rule: format!(
-                "all work in {nshards} child processes. (sat) every grammar with <= {} nodes of the C01/C02 class (plus a failing custom leaf) and, for every node of it, the node wrapped in map_err / labelled / labelled.as_context / memoized / recover_with(via_parser(empty|any|failing), skip_until, skip_then_retry_until, nested_delimiters) and selected pairs of wrappers, x every input <= {} over {{a,b,é}} x error types EmptyErr (the zero-sized default), Rich, Cheap, Simple x parse and check; (rand) {} random grammars of 3..14 nodes of the broadest class (recovery, validation, labels, memoization, Ext, state, context, nested inputs) with random wrappers, on arbitrary-Unicode inputs (NUL, combining marks, ZWJ, astral, noncharacters) and every prefix of one input, on &str and in turn &[char] / Stream / mapped token inputs; (text) {} batches of 12 arbitrary-Unicode strings + 8 arbitrary byte strings + all byte prefixes of a UTF-8 string through 14 statically typed text grammars on &str (ident, int, digits, keyword, whitespace, newline, regex, multi-byte just, filter, string literals with skip_until recovery, a recursive bracket tree with nested_delimiters and skip_then_retry_until recovery, memoized/labelled/map_err stacks), 7 on &[u8], 2 on Graphemes, with Rich and EmptyErr (every 4th batch also Cheap and Simple); (scale) 9 families at n/4, n/2, n = {} bytes; (deep) 12 families of well-formed inputs nested / chained {} levels deep (Pratt prefix, right- and left-associative infix, postfix and mixed chains, recursive() and declare/define parentheses, recursive lists, mutual recursion through boxed(), Pratt over a recursive atom) each on its own thread with a 1 MiB stack, in parse, check, ignored() and to_slice() form: must return the expected output (a stack overflow kills the child and is reported with the case). Per run: no panic (caught per case), no more than 10^7 logical steps (inspector: next/save/rewind) unless the reference model is itself over budget, no output => >= 1 error, ParseResult accessor contract, every error span and every returned slice inside the input, on character boundaries and equal to input[span]; per child: exit status / signal, CPU-time hang monitor per case (25 CPU-s), wall-clock watchdog (inconclusive); scale: steps at most x2.3 when the input doubles. Non-trivial: runs that reject their input",
+                "all work in {nshards} child processes. (sat) every grammar with <= {} nodes of the C01/C02 class (plus a failing custom leaf) and, for every node of it, the node wrapped in map_err / labelled / labelled.as_context / memoized / recover_with(via_parser(empty|any|failing), skip_until, skip_then_retry_until, nested_delimiters) and selected pairs of wrappers, x every input <= {} over {{a,b,é}} x error types EmptyErr (the zero-sized default), Rich, Cheap, Simple x parse and check; (rand) {} random grammars of 3..14 nodes of the broadest class (recovery, validation, labels, memoization, Ext, state, context, nested inputs) with random wrappers, on arbitrary-Unicode inputs (NUL, combining marks, ZWJ, astral, noncharacters) and every prefix of one input, on &str and in turn &[char] / Stream / mapped token inputs; (text) {} batches of 12 arbitrary-Unicode strings + 8 arbitrary byte strings + all byte prefixes of a UTF-8 string through 14 statically typed text grammars on &str (ident, int, digits, keyword, whitespace, newline, regex, multi-byte just, filter, string literals with skip_until recovery, a recursive bracket tree with nested_delimiters and skip_then_retry_until recovery, memoized/labelled/map_err stacks), 7 on &[u8], 2 on Graphemes, with Rich and EmptyErr (every 4th batch also Cheap and Simple); (scale) 9 families at n/4, n/2, n = {} bytes; (deep) 12 families of well-formed inputs nested / chained {} levels deep (Pratt prefix, right- and left-associative infix, postfix and mixed chains, recursive() and declare/define parentheses, recursive lists, mutual recursion through boxed(), Pratt over a recursive atom) each on its own thread with a 1 MiB stack, in parse, check, ignored() and to_slice() form: must return the expected output (a stack overflow kills the child and is reported with the case). Per run: no panic (caught per case), no more than 10^7 logical steps (inspector: next/save/rewind) unless the reference model is itself over budget, no output => >= 1 error, ParseResult accessor contract, every error span and every returned slice inside the input, on character boundaries and equal to input[span]; per child: exit status / signal, CPU-time hang monitor per case (25 CPU-s), wall-clock watchdog (inconclusive); scale: steps at most x2.3 when the input doubles. Non-trivial: runs that reject their input; (iter) the iterable-parser matrix: 10 IterParser sources (repeated, separated_by, into_iter over three containers incl. a possibly empty one, or_not as iterable with and without a nullable inner parser, chained iterables, configured repetitions and separated lists) x the adapter stacks the API admits (enumerate, map, map_with and their compositions: 5 stacks for unit-item sources, 2 otherwise) x 8 drivers (collect, count, foldl, foldl_with, foldr, foldr_with, collect_exactly, unit parser under to_slice) = {} statically typed parsers x every string <= 4 over {{1,2,comma,#,x}} x parse and check (Rich; every 4th slice also EmptyErr): no panic (progress assertions), step budget, result contract, and all adapter stacks over one (source, driver) agree on acceptance and item count",
                 if cx.thorough() { 4 } else { 3 },
                 if cx.thorough() { 4 } else { 3 },
                 pl.n_rand,
                 pl.n_text,
                 pl.scale_n,
-                pl.deep_n
+                pl.deep_n,
+                (5 * 5 + 5 * 2) * 8
             ),
             exhaustive: false,
             exhaustive_note: "saturation part: complete below the stated bounds".into(),
@@ -1196,6 +1200,8 @@ pub fn run(cx: &RunCtx) -> i32 {
                 ("slices_checked_against_input".into(), 10_000),
                 ("scaling_runs".into(), 20),
                 ("deep_runs".into(), 40),
+                ("iter_matrix_cases".into(), 100_000),
+                ("iter_matrix_accepting_runs".into(), 10_000),
                 ("child_processes".into(), 1),
             ],
             min_evaluations: 100_000,
